@@ -125,3 +125,16 @@ func (c *Controller) arrive(point string, args ...interface{}) {
 	}
 	c.mu.Unlock()
 }
+
+// Count returns how often point has been reached.
+func (c *Controller) Count(point string) int {
+	c.mu.Lock()
+	defer c.mu.Unlock()
+	n := 0
+	for _, a := range c.Log {
+		if a.Point == point {
+			n++
+		}
+	}
+	return n
+}
